@@ -599,11 +599,16 @@ func (wd *world) doData(f []string, line string) {
 		panic(fmt.Sprint("data did not parse: ", err))
 	}
 	pkt := &defn.Pkt{Name: p.Data.NameV, L3: p, Raw: raw, IncomingFaceID: utils.IdPtr(faceNo)}
-	if f[4] == "@" { // echo the PIT token of the last Interest the forwarder emitted
-		f[4] = "-"
-		if len(wd.emitted) > 0 {
-			f[4] = wd.emitted[len(wd.emitted)-1].tok
-		}
+	if strings.HasPrefix(f[4], "@") {
+		// symbolic PIT token, resolved against the Interests the forwarder has emitted so far (entry tokens are random, so a replay
+		// must not carry the bytes of an earlier run):
+		//   @                    token of the last emitted Interest
+		//   @<face>:<name>       token of the last Interest emitted on that face with that name
+		//   @x<face>:<name>      that token with its last bit flipped (6 bytes, never issued)
+		//   @t<id>:<face>:<name> that token under thread id <id>
+		sym := f[4]
+		wd.pf("mark tok %s\n", sym)
+		f[4] = wd.resolveToken(sym)
 	}
 	if opt(f[4]) {
 		pkt.PitToken = unhx(f[4])
@@ -622,6 +627,45 @@ func (wd *world) doData(f []string, line string) {
 		ths = []string{"-"}
 	}
 	wd.pf("pick thrs %s\n", strings.Join(ths, ","))
+}
+
+func (wd *world) resolveToken(sym string) string {
+	if sym == "@" {
+		if len(wd.emitted) > 0 {
+			return wd.emitted[len(wd.emitted)-1].tok
+		}
+		return "-"
+	}
+	body := sym[1:]
+	mode, tid := byte(0), 0
+	if strings.HasPrefix(body, "x") {
+		mode, body = 'x', body[1:]
+	} else if strings.HasPrefix(body, "t") {
+		parts := strings.SplitN(body[1:], ":", 2)
+		tid, _ = strconv.Atoi(parts[0])
+		mode, body = 't', parts[1]
+	}
+	fn := strings.SplitN(body, ":", 2)
+	if len(fn) != 2 {
+		return "-"
+	}
+	face, _ := strconv.ParseUint(fn[0], 10, 64)
+	for i := len(wd.emitted) - 1; i >= 0; i-- {
+		e := wd.emitted[i]
+		if e.face == face && e.name == fn[1] {
+			b := unhx(e.tok)
+			if len(b) == 6 {
+				switch mode {
+				case 'x':
+					b[5] ^= 1
+				case 't':
+					b[0], b[1] = byte(tid>>8), byte(tid)
+				}
+			}
+			return hx(b)
+		}
+	}
+	return "-"
 }
 
 func faceID(s string) uint64 {
@@ -941,15 +985,12 @@ func (g *gen) data() string {
 			n = g.extend(n)
 		}
 		tok := "-"
+		sym := fmt.Sprintf("%d:%s", s.face, s.name)
 		switch g.r.Intn(10) {
 		case 0, 1, 2, 3, 4:
-			tok = s.tok // echoed
+			tok = "@" + sym // echoed
 		case 5:
-			b := unhx(s.tok)
-			if len(b) == 6 {
-				b[5] ^= 1 // foreign: 6 bytes but never issued
-				tok = hex.EncodeToString(b)
-			}
+			tok = "@x" + sym // foreign: 6 bytes but never issued
 		case 6:
 			b := unhx(s.tok)
 			if len(b) == 6 {
@@ -957,7 +998,7 @@ func (g *gen) data() string {
 				if g.wd.nthr > 1 && g.r.Intn(2) == 0 {
 					b[1] = byte((int(unhx(s.tok)[1]) + 1) % g.wd.nthr) // ... or under another existing thread
 				}
-				tok = hex.EncodeToString(b)
+				tok = fmt.Sprintf("@t%d:%s", int(b[1]), sym)
 			}
 		case 7:
 			tok = "0a0b0c0d" // wrong length
@@ -1444,6 +1485,16 @@ func TestTrace(t *testing.T) {
 				wd := newWorld(w, nt, dl, fm)
 				header(wd, k, universe, pool)
 				for i := 0; i < len(ops); i++ {
+					if strings.HasPrefix(ops[i], "mark tok ") {
+						if i+1 < len(ops) {
+							if f := strings.Fields(normalizeOp(ops[i+1])); f[0] == "data" && len(f) == 5 {
+								f[4] = strings.Fields(ops[i])[2]
+								wd.exec(strings.Join(f, " "))
+								i++
+							}
+						}
+						continue
+					}
 					if strings.HasPrefix(ops[i], "mark fragments ") {
 						if i+1 < len(ops) && strings.HasPrefix(normalizeOp(ops[i+1]), "int ") {
 							wd.exec("fragint " + strings.Fields(ops[i])[2] + " " + normalizeOp(ops[i+1]))
